@@ -75,25 +75,28 @@ Proof.
     destruct (read_seq _ _ _ _) as [[vs|ex] lg]; reflexivity.
 Qed.
 
-Lemma apply_all_log units r : snd (apply_all H units r) = flat_map (fun us => write_call (fst us) r) units.
+Lemma apply_all_log r : forall m g, snd (apply_all H m g r) = flat_map (fun uh => write_call (snd uh) r) m.
 Proof.
-  induction units as [|[u st] rest IH]; [reflexivity|]. cbn [apply_all flat_map fst].
-  destruct (apply_all H rest r) as [rest' lg]. cbn [snd] in *. rewrite IH. reflexivity.
+  induction m as [|[u h] rest IH]; intros g; [reflexivity|]. cbn [apply_all flat_map snd].
+  specialize (IH (sset g h (fst (apply_write H (g h) r)))).
+  destruct (apply_all H rest (sset g h (fst (apply_write H (g h) r))) r) as [g' lg]. cbn [snd] in *. rewrite IH. reflexivity.
 Qed.
-Lemma apply_all_units units r : fst (apply_all H units r) = map (fun us => (fst us, fst (apply_write H (snd us) r))) units.
+(* the store after a broadcast write: the unit ids in ascending order, each applying the write to the
+   handler object it maps to, on the state left by the previous ones *)
+Definition broadcast_store (r : request) (m : list (N * N)) (g : N -> St) : N -> St :=
+  fold_left (fun g uh => sset g (snd uh) (fst (apply_write H (g (snd uh)) r))) m g.
+Lemma apply_all_store r : forall m g, fst (apply_all H m g r) = broadcast_store r m g.
 Proof.
-  induction units as [|[u st] rest IH]; [reflexivity|]. cbn [apply_all map fst snd].
-  destruct (apply_all H rest r) as [rest' lg]. cbn [fst] in *. rewrite IH. reflexivity.
+  induction m as [|[u h] rest IH]; intros g; [reflexivity|]. cbn [apply_all broadcast_store fold_left snd].
+  specialize (IH (sset g h (fst (apply_write H (g h) r)))).
+  destruct (apply_all H rest (sset g h (fst (apply_write H (g h) r))) r) as [g' lg]. cbn [fst] in *. exact IH.
 Qed.
 
-Lemma flat_map_no_auth units r : no_auth (flat_map (fun us : N * St => write_call (fst us) r) units).
-Proof. induction units; cbn [flat_map]; [constructor|]. apply no_auth_app; [apply write_call_no_auth|assumption]. Qed.
+Lemma flat_map_no_auth (m : list (N * N)) r : no_auth (flat_map (fun uh : N * N => write_call (snd uh) r) m).
+Proof. induction m; cbn [flat_map]; [constructor|]. apply no_auth_app; [apply write_call_no_auth|assumption]. Qed.
 
-Lemma update_same u (st : St) units : lookup u units = Some st -> update u st units = units.
-Proof.
-  induction units as [|[k s] rest IH]; [reflexivity|]. cbn [lookup update].
-  destruct (k =? u); [intros E; inversion E; reflexivity|]. intros E. rewrite IH by assumption. reflexivity.
-Qed.
+Lemma sset_same (g : N -> St) h k : sset g h (g h) k = g k.
+Proof. unfold sset. destruct (N.eqb_spec k h) as [->|]; reflexivity. Qed.
 
 (* ---------------------------------------------------------------- C02 *)
 (* the handler calls of a frame are exactly spec_calls *)
@@ -104,13 +107,14 @@ Proof.
   destruct (authorize a (dest_value (f_dest fr)) r) as [ok alog]. cbn [fst snd] in *.
   destruct ok; cbn [negb snd]; [|exact HA].
   destruct (f_dest fr) as [u|].
-  - destruct (lookup u units) as [st|]; [|exact HA].
-    pose proof (ref_exec_log fc u st r) as L. unfold log_of in L.
-    destruct (ref_exec H fc u st r) as [[st' pdu] lg]. cbn [snd] in *. subst lg.
+  - destruct (lookup u (u_map units)) as [h|]; [|exact HA].
+    pose proof (ref_exec_log fc h (u_store units h) r) as L. unfold log_of in L.
+    destruct (ref_exec H fc h (u_store units h) r) as [[st' pdu] lg]. cbn [snd] in *. subst lg.
     rewrite handler_events_app, HA. cbn [app].
     apply no_auth_handler_events. destruct (is_write r); [apply write_call_no_auth|apply read_calls_no_auth].
   - destruct (is_write r); [|exact HA].
-    pose proof (apply_all_log units r) as L. destruct (apply_all H units r) as [units' lg]. cbn [snd] in *. subst lg.
+    pose proof (apply_all_log r (u_map units) (u_store units)) as L.
+    destruct (apply_all H (u_map units) (u_store units) r) as [g' lg]. cbn [snd] in *. subst lg.
     rewrite handler_events_app, HA. cbn [app]. apply no_auth_handler_events, flat_map_no_auth.
 Qed.
 
@@ -119,29 +123,31 @@ Theorem calls_frame l a units fr : frame_ok l fr ->
 Proof. intros Hok. rewrite handle_frame_refines by assumption. rewrite lift3_log. apply ref_calls. Qed.
 
 (* no call, no effect *)
-Lemma ref_no_effect l a units fr : spec_calls H a units fr = [] -> units_of (ref_handle_frame H l a units fr) = units.
+Definition same_units (x y : ucfg St) : Prop := u_map x = u_map y /\ forall k, u_store x k = u_store y k.
+
+Lemma ref_no_effect l a units fr : spec_calls H a units fr = [] -> same_units (units_of (ref_handle_frame H l a units fr)) units.
 Proof.
-  unfold ref_handle_frame, spec_calls, units_of. destruct (decode (f_pdu fr)) as [|fc|fc|fc r]; try reflexivity.
+  unfold ref_handle_frame, spec_calls, units_of, same_units. destruct (decode (f_pdu fr)) as [|fc|fc|fc r]; try (split; reflexivity).
   destruct (authorize a (dest_value (f_dest fr)) r) as [ok alog]. cbn [fst snd].
-  destruct ok; cbn [negb]; [|reflexivity].
+  destruct ok; cbn [negb]; [|split; reflexivity].
   destruct (f_dest fr) as [u|].
-  - destruct (lookup u units) as [st|] eqn:Lk; [|reflexivity].
+  - destruct (lookup u (u_map units)) as [h|] eqn:Lk; [|split; reflexivity].
     destruct (is_write r) eqn:W.
     + intros E. destruct r; cbn [is_write kind_of kind_is_read negb] in W; try discriminate; discriminate E.
-    + intros _. pose proof (ref_exec_read_state fc u st r W) as S.
-      destruct (ref_exec H fc u st r) as [[st' pdu] lg]. cbn [fst snd] in *. subst st'. apply update_same. exact Lk.
-  - destruct (is_write r) eqn:W; [|reflexivity].
-    pose proof (apply_all_units units r) as U. destruct (apply_all H units r) as [units' lg]. cbn [fst snd] in *. subst units'.
-    destruct units as [|[u st] rest]; [reflexivity|]. cbn [flat_map fst].
-    intros E. destruct r; cbn [is_write kind_of kind_is_read negb] in W; try discriminate; discriminate E.
+    + intros _. pose proof (ref_exec_read_state fc h (u_store units h) r W) as S.
+      destruct (ref_exec H fc h (u_store units h) r) as [[st' pdu] lg]. cbn [fst snd] in *. subst st'.
+      split; [reflexivity|]. intros k. apply sset_same.
+  - destruct (is_write r) eqn:W; [|split; reflexivity].
+    destruct (u_map units) as [|[u h] rest] eqn:Em; [cbn [apply_all fst snd]; split; [assumption|reflexivity]|].
+    cbn [flat_map snd]. intros E. destruct r; cbn [is_write kind_of kind_is_read negb] in W; try discriminate; discriminate E.
 Qed.
 
 Theorem no_effect_frame l a units fr : frame_ok l fr -> spec_calls H a units fr = [] ->
-  units_of (handle_frame H l a units fr) = units.
+  same_units (units_of (handle_frame H l a units fr)) units.
 Proof. intros Hok E. rewrite handle_frame_refines by assumption. rewrite lift3_units. apply ref_no_effect. exact E. Qed.
 
 (* sequences: the calls of a session are the calls of its frames, each against the state its predecessors left *)
-Fixpoint calls_seq (l : link) (a : auth) (units : list (N * St)) (frames : list frame) : list event :=
+Fixpoint calls_seq (l : link) (a : auth) (units : ucfg St) (frames : list frame) : list event :=
   match frames with
   | [] => []
   | fr :: rest => spec_calls H a units fr ++ calls_seq l a (units_of (ref_handle_frame H l a units fr)) rest
@@ -189,11 +195,11 @@ Proof.
   unfold spec_calls. destruct (decode (f_pdu fr)) as [|fc|fc|fc r]; try (intros []).
   destruct (fst (authorize a (dest_value (f_dest fr)) r)); [|intros []].
   destruct (f_dest fr) as [u|].
-  - destruct (lookup u units) as [st|]; [|intros []]. destruct (is_write r).
-    + intros Hin _. exists fc, r, u. auto.
+  - destruct (lookup u (u_map units)) as [h|]; [|intros []]. destruct (is_write r).
+    + intros Hin _. exists fc, r, h. auto.
     + intros Hin W. exfalso. eapply read_calls_not_wm; eauto.
-  - destruct (is_write r); [|intros []]. intros Hin _. apply in_flat_map in Hin as [[u st] [_ Hin]].
-    exists fc, r, u. auto.
+  - destruct (is_write r); [|intros []]. intros Hin _. apply in_flat_map in Hin as [[u h] [_ Hin]].
+    exists fc, r, h. auto.
 Qed.
 
 Theorem args_coils a units fr u s n items : In (EvWriteMultipleCoils u s n items) (spec_calls H a units fr) ->
@@ -235,18 +241,19 @@ Qed.
 Lemma write_call_not_read u r e : In e (write_call u r) -> ev_read e = None.
 Proof. destruct r; cbn [write_call In]; intros Hin; try contradiction; destruct Hin as [<-|[]]; reflexivity. Qed.
 
-Theorem reads_in_range a units fr e k u addr : In e (spec_calls H a units fr) -> ev_read e = Some (k, u, addr) ->
-  exists fc r s n, decode (f_pdu fr) = Valid fc r /\ kind_of r = k /\ f_dest fr = DUnit u /\ arg_of r = ARange s n /\ (s <= addr /\ addr < s + n).
+Theorem reads_in_range a units fr e k h addr : In e (spec_calls H a units fr) -> ev_read e = Some (k, h, addr) ->
+  exists fc r u s n, decode (f_pdu fr) = Valid fc r /\ kind_of r = k /\ f_dest fr = DUnit u /\ lookup u (u_map units) = Some h /\
+                     arg_of r = ARange s n /\ (s <= addr /\ addr < s + n).
 Proof.
   unfold spec_calls. destruct (decode (f_pdu fr)) as [|fc|fc|fc r]; try (intros []).
   destruct (fst (authorize a (dest_value (f_dest fr)) r)); [|intros []].
   destruct (f_dest fr) as [u0|].
-  - destruct (lookup u0 units) as [st|]; [|intros []]. destruct (is_write r).
+  - destruct (lookup u0 (u_map units)) as [h0|] eqn:Lk; [|intros []]. destruct (is_write r).
     + intros Hin E. rewrite (write_call_not_read _ _ _ Hin) in E. discriminate.
     + intros Hin E. destruct r; cbn [read_calls] in Hin; try contradiction;
         apply read_seq_addresses in Hin as (i & Hi & ->); cbn [ev_read] in E; inversion E; subst;
-        do 4 eexists; (split; [reflexivity|]); cbn [kind_of arg_of]; repeat split; try reflexivity; lia.
-  - destruct (is_write r); [|intros []]. intros Hin E. apply in_flat_map in Hin as [[u0 st] [_ Hin]].
+        do 5 eexists; (split; [reflexivity|]); cbn [kind_of arg_of]; repeat split; try reflexivity; try eassumption; lia.
+  - destruct (is_write r); [|intros []]. intros Hin E. apply in_flat_map in Hin as [[u0 h0] [_ Hin]].
     rewrite (write_call_not_read _ _ _ Hin) in E. discriminate.
 Qed.
 
@@ -272,12 +279,13 @@ Proof.
   intros Hd. unfold ref_handle_frame, log_of. rewrite Hd. cbn [authorize].
   destruct (p (kind_of r) (dest_value (f_dest fr)) (arg_of r) role); cbn [negb snd].
   - destruct (f_dest fr) as [u|].
-    + destruct (lookup u units) as [st|]; [|eexists; split; [reflexivity|constructor]].
-      pose proof (ref_exec_log fc u st r) as L. unfold log_of in L.
-      destruct (ref_exec H fc u st r) as [[st' pdu] lg]. cbn [snd app] in *. subst lg.
+    + destruct (lookup u (u_map units)) as [h|]; [|eexists; split; [reflexivity|constructor]].
+      pose proof (ref_exec_log fc h (u_store units h) r) as L. unfold log_of in L.
+      destruct (ref_exec H fc h (u_store units h) r) as [[st' pdu] lg]. cbn [snd app] in *. subst lg.
       eexists; split; [reflexivity|]. destruct (is_write r); [apply write_call_no_auth|apply read_calls_no_auth].
     + destruct (is_write r); [|eexists; split; [reflexivity|constructor]].
-      pose proof (apply_all_log units r) as L. destruct (apply_all H units r) as [units' lg]. cbn [snd app] in *. subst lg.
+      pose proof (apply_all_log r (u_map units) (u_store units)) as L.
+      destruct (apply_all H (u_map units) (u_store units) r) as [g' lg]. cbn [snd app] in *. subst lg.
       eexists; split; [reflexivity|]. apply flat_map_no_auth.
   - eexists; split; [reflexivity|constructor].
 Qed.
@@ -312,12 +320,13 @@ Proof.
   cbv zeta. rewrite Cx, SC, <- Cy. clear Cx Cy SC.
   unfold ref_handle_frame, reply_of, units_of, log_of. rewrite Hd. cbn [authorize]. rewrite Hp. cbn [negb].
   destruct (f_dest fr) as [u|].
-  - destruct (lookup u units) as [st|]; [|repeat split].
-    pose proof (ref_exec_log fc u st r) as L. unfold log_of in L.
-    destruct (ref_exec H fc u st r) as [[st' pdu] lg]. cbn [fst snd app] in *. subst lg.
+  - destruct (lookup u (u_map units)) as [h|]; [|repeat split].
+    pose proof (ref_exec_log fc h (u_store units h) r) as L. unfold log_of in L.
+    destruct (ref_exec H fc h (u_store units h) r) as [[st' pdu] lg]. cbn [fst snd app] in *. subst lg.
     repeat split. apply no_auth_handler_events. destruct (is_write r); [apply write_call_no_auth|apply read_calls_no_auth].
   - destruct (is_write r); [|repeat split].
-    pose proof (apply_all_log units r) as L. destruct (apply_all H units r) as [units' lg]. cbn [fst snd app] in *. subst lg.
+    pose proof (apply_all_log r (u_map units) (u_store units)) as L.
+    destruct (apply_all H (u_map units) (u_store units) r) as [g' lg]. cbn [fst snd app] in *. subst lg.
     repeat split. apply no_auth_handler_events, flat_map_no_auth.
 Qed.
 End Auth.
@@ -345,13 +354,13 @@ Qed.
 
 (* ---------------------------------------------------------------- C17 *)
 Lemma ref_silent l units fr : reply_of (ref_handle_frame H l NoAuth units fr) <> [] ->
-  exists u, f_dest fr = DUnit u /\ lookup u units <> None.
+  exists u, f_dest fr = DUnit u /\ lookup u (u_map units) <> None.
 Proof.
   unfold ref_handle_frame, reply_of. destruct (f_dest fr) as [u|] eqn:Ed.
-  - destruct (lookup u units) as [st|] eqn:Lk; [intros _; exists u; split; [reflexivity|rewrite Lk; discriminate]|].
+  - destruct (lookup u (u_map units)) as [h|] eqn:Lk; [intros _; exists u; split; [reflexivity|rewrite Lk; discriminate]|].
     destruct (decode (f_pdu fr)) as [|fc|fc|fc r]; cbn [authorize negb fst]; intros E; exfalso; apply E; reflexivity.
   - destruct (decode (f_pdu fr)) as [|fc|fc|fc r]; cbn [authorize negb fst dest_is_broadcast]; try (intros E; exfalso; apply E; reflexivity).
-    destruct (is_write r); [destruct (apply_all H units r)|]; intros E; exfalso; apply E; reflexivity.
+    destruct (is_write r); [destruct (apply_all H (u_map units) (u_store units) r)|]; intros E; exfalso; apply E; reflexivity.
 Qed.
 
 (* a broadcast is never answered, whatever it carries and whatever the authorization *)
@@ -360,17 +369,17 @@ Proof.
   intros Ed. unfold ref_handle_frame, reply_of. rewrite Ed.
   destruct (decode (f_pdu fr)) as [|fc|fc|fc r]; try reflexivity.
   destruct (authorize a (dest_value DBroadcast) r) as [ok alog]. destruct ok; cbn [negb dest_is_broadcast]; [|reflexivity].
-  destruct (is_write r); [destruct (apply_all H units r)|]; reflexivity.
+  destruct (is_write r); [destruct (apply_all H (u_map units) (u_store units) r)|]; reflexivity.
 Qed.
 
 Lemma ref_broadcast_write l units fr fc r : f_dest fr = DBroadcast -> decode (f_pdu fr) = Valid fc r -> is_write r = true ->
   let x := ref_handle_frame H l NoAuth units fr in
-  reply_of x = [] /\ log_of x = flat_map (fun us => write_call (fst us) r) units /\
-  units_of x = map (fun us => (fst us, fst (apply_write H (snd us) r))) units.
+  reply_of x = [] /\ log_of x = flat_map (fun uh => write_call (snd uh) r) (u_map units) /\
+  units_of x = with_store units (broadcast_store r (u_map units) (u_store units)).
 Proof.
   intros Ed Hd W. unfold ref_handle_frame, reply_of, log_of, units_of. rewrite Ed, Hd. cbn [authorize negb]. rewrite W.
-  pose proof (apply_all_log units r) as L. pose proof (apply_all_units units r) as U.
-  destruct (apply_all H units r) as [units' lg]. cbn [fst snd app] in *. subst. repeat split.
+  pose proof (apply_all_log r (u_map units) (u_store units)) as L. pose proof (apply_all_store r (u_map units) (u_store units)) as U.
+  destruct (apply_all H (u_map units) (u_store units) r) as [g' lg]. cbn [fst snd app] in *. subst. repeat split.
 Qed.
 
 Lemma ref_broadcast_other l units fr : f_dest fr = DBroadcast ->
@@ -382,29 +391,66 @@ Proof.
   cbn [authorize negb]. rewrite (Hd fc r eq_refl). repeat split.
 Qed.
 
-(* the set of configured unit ids never changes *)
-Lemma update_keys u (st : St) units : map fst (update u st units) = map fst units.
-Proof. induction units as [|[k s] rest IH]; [reflexivity|]. cbn [update]. destruct (k =? u); cbn [map fst]; [reflexivity|]. rewrite IH. reflexivity. Qed.
+(* when no two unit ids share a handler object, a broadcast write is applied exactly once to every
+   configured unit's handler and to nothing else *)
+Lemma broadcast_store_distinct r : forall m g h, NoDup (map snd m) ->
+  broadcast_store r m g h = if in_dec N.eq_dec h (map snd m) then fst (apply_write H (g h) r) else g h.
+Proof.
+  induction m as [|[u h0] rest IH]; intros g h Hnd; [reflexivity|].
+  cbn [map snd] in Hnd. inversion Hnd as [|? ? Hnotin Hnd']; subst.
+  change (broadcast_store r ((u, h0) :: rest) g h) with (broadcast_store r rest (sset g h0 (fst (apply_write H (g h0) r))) h).
+  rewrite IH by assumption. cbn [map snd]. unfold sset.
+  destruct (in_dec N.eq_dec h (map snd rest)) as [Hin|Hout].
+  - destruct (N.eqb_spec h h0) as [->|Hne]; [contradiction|].
+    destruct (in_dec N.eq_dec h (h0 :: map snd rest)) as [_|Hn]; [reflexivity|]. exfalso. apply Hn. right. exact Hin.
+  - destruct (N.eqb_spec h h0) as [->|Hne].
+    + destruct (in_dec N.eq_dec h0 (h0 :: map snd rest)) as [_|Hn]; [reflexivity|]. exfalso. apply Hn. left. reflexivity.
+    + destruct (in_dec N.eq_dec h (h0 :: map snd rest)) as [[E|Hin]|_]; [congruence|contradiction|reflexivity].
+Qed.
 
-Lemma ref_keys l a units fr : map fst (units_of (ref_handle_frame H l a units fr)) = map fst units.
+(* two unit ids sharing one handler object: the object sees the broadcast write twice, the second
+   time on the state the first left *)
+Lemma broadcast_store_shared r u1 u2 h g :
+  broadcast_store r [(u1, h); (u2, h)] g h = fst (apply_write H (fst (apply_write H (g h) r)) r).
+Proof. unfold broadcast_store. cbn [fold_left snd]. unfold sset. rewrite !N.eqb_refl. reflexivity. Qed.
+
+(* a request addressed to a unit id acts on exactly the handler object that unit id maps to: the new
+   state of that object is the handler's, every other object is untouched - so any other unit id
+   mapped to the same object sees the effect, and no other unit does *)
+Lemma ref_unit_effect l units fr fc r u h : f_dest fr = DUnit u -> lookup u (u_map units) = Some h ->
+  decode (f_pdu fr) = Valid fc r ->
+  let x := ref_handle_frame H l NoAuth units fr in
+  u_map (units_of x) = u_map units /\
+  u_store (units_of x) h = fst (fst (ref_exec H fc h (u_store units h) r)) /\
+  (forall k, k <> h -> u_store (units_of x) k = u_store units k).
+Proof.
+  intros Ed Lk Hd. unfold ref_handle_frame, units_of. rewrite Ed, Hd, Lk. cbn [authorize negb].
+  destruct (ref_exec H fc h (u_store units h) r) as [[st' pdu] lg]. cbn [fst snd with_store u_map u_store].
+  repeat split.
+  - unfold sset. rewrite N.eqb_refl. reflexivity.
+  - intros k Hk. unfold sset. destruct (N.eqb_spec k h); [contradiction|reflexivity].
+Qed.
+
+(* the unit id -> handler object map never changes *)
+Lemma ref_keys l a units fr : u_map (units_of (ref_handle_frame H l a units fr)) = u_map units.
 Proof.
   unfold ref_handle_frame, units_of. destruct (decode (f_pdu fr)) as [|fc|fc|fc r]; try reflexivity.
   destruct (authorize a (dest_value (f_dest fr)) r) as [ok alog]. destruct ok; cbn [negb]; [|reflexivity].
   destruct (f_dest fr) as [u|].
-  - destruct (lookup u units) as [st|]; [|reflexivity]. destruct (ref_exec H fc u st r) as [[st' pdu] lg]. cbn [fst snd]. apply update_keys.
-  - destruct (is_write r); [|reflexivity]. pose proof (apply_all_units units r) as U.
-    destruct (apply_all H units r) as [units' lg]. cbn [fst snd] in *. subst. rewrite map_map. cbn [fst]. reflexivity.
+  - destruct (lookup u (u_map units)) as [h|]; [|reflexivity].
+    destruct (ref_exec H fc h (u_store units h) r) as [[st' pdu] lg]. reflexivity.
+  - destruct (is_write r); [|reflexivity]. destruct (apply_all H (u_map units) (u_store units) r) as [g' lg]. reflexivity.
 Qed.
 
-Lemma lookup_in u (units : list (N * St)) : lookup u units <> None -> In u (map fst units).
+Lemma lookup_in {A} u (m : list (N * A)) : lookup u m <> None -> In u (map fst m).
 Proof.
-  induction units as [|[k s] rest IH]; cbn [lookup map fst]; [intros E; exfalso; apply E; reflexivity|].
+  induction m as [|[k s] rest IH]; cbn [lookup map fst]; [intros E; exfalso; apply E; reflexivity|].
   destruct (N.eqb_spec k u) as [->|]; [left; reflexivity|]. intros E. right. apply IH. exact E.
 Qed.
 
 (* over a whole connection: every reply answers a frame addressed to a configured unit id *)
 Lemma ref_silent_session l : forall frames units,
-  Forall2 (fun fr reply => reply <> [] -> exists u, f_dest fr = DUnit u /\ In u (map fst units))
+  Forall2 (fun fr reply => reply <> [] -> exists u, f_dest fr = DUnit u /\ In u (map fst (u_map units)))
           frames (reply_of (ref_session H l NoAuth units frames)).
 Proof.
   induction frames as [|fr rest IH]; intros units; [constructor|]. cbn [ref_session].
